@@ -65,6 +65,12 @@ CLAIMED["C09"] = dict(
    note="Programs that cannot be traced by tf.function/jax.jit (they raise at trace time, e.g. MachZehnder under tf.function) are counted, not judged; fermionic simulators under JAX are not covered yet.",
    technique="behaviours of the exact TLA+ reference semantics replayed under every connector (eager and compiled) and compared with the exact state",
    engine="PqOptics, PqGaussian")
+CLAIMED["C10"] = dict(
+   category="model_checking", design_ref="§3 C10",
+   text="PqOpticsGrad.tla is the exact tangent semantics of PqOptics: the derivative of the state with respect to one parameter (Beamsplitter theta / phi, Phaseshifter phi) of one gate of the program, by the Leibniz rule on the substitution a_c^dagger -> L_c with the derivative of the documented one-particle matrix (a lattice matrix with the same denominator); Kerr-type and parameter-free gates are differentiated through. TLC checks Re<psi|dpsi> = 0 on every behaviour (d=2,3, n<=3, depth 2-3) and exports state and tangent. The exact Jacobian of all Fock probabilities, 2 Re(conj(a_v) da_v), is compared at 1e-7 with tf.GradientTape (eager and inside tf.function), with jax.jacfwd / jax.jacrev (eager and under jax.jit) and, as the property's own oracle, with central finite differences of the NumPy simulation. The JAX permanent: value and holomorphic gradient against the definition (d perm / dA_ij = rows_i cols_j perm of the minor) for Gaussian-integer matrices with multiplicities.",
+   note="Not decided: the hand-written gradient rules of Fock-space displacement and squeezing (their amplitudes are transcendental in the parameter, no exact lattice tangent) and batched states.",
+   technique="exact tangent semantics in TLA+ (TLC-checked, exported) compared with TensorFlow / JAX automatic derivatives, eager and compiled",
+   engine="PqOpticsGrad")
 CLAIMED["C05"] = dict(
    category="model_checking", design_ref="§3 C05",
    text="PqOptics.tla models loss as the unitary dilation (beamsplitter onto a fresh ancilla) and post-selection as projection; TLC checks NormIsOne, NormAtMostOne, ChainRule and SeqEqJoint on every reachable spec state and exports exact states. Replay on PassiveSimulator: get_particle_detection_probability, fock_probabilities_map, marginals on every mode subset, state_vector and norm against the marginal of the exact dilation (1e-9), and the dilation program itself on PureFockSimulator amplitude by amplitude.",
